@@ -277,8 +277,18 @@ def same_value(kind, a, b):
     return a == b
 
 
-def duration_close(td, secs):
-    """timedelta vs exact Fraction seconds: 1 microsecond + a few ulps of float arithmetic."""
+def duration_close(td, secs, text=None):
+    """timedelta vs exact Fraction seconds. Without a month component every quantity involved is a
+    multiple of a quarter day, a whole hour/minute or a decimal number of seconds, so a float
+    computation that keeps the components apart is exact up to the final rounding to microseconds
+    (tolerance 1 microsecond). The month length 30.44 is not a binary fraction: with months the
+    tolerance grows by a few ulps of the total."""
     got = Fraction(td.days) * 86400 + td.seconds + Fraction(td.microseconds, 10 ** 6)
-    tol = Fraction(1, 10 ** 6) + abs(secs) * Fraction(1, 2 ** 49)
+    tol = Fraction(1, 10 ** 6)
+    months = True
+    if text is not None:
+        m = re.fullmatch(r"[+-]?P(?:\d+Y)?(?:(\d+)M)?(?:\d+D)?(?:T.*)?", text.upper())
+        months = bool(m and m.group(1) and int(m.group(1)))
+    if months:
+        tol += abs(secs) * Fraction(1, 2 ** 49)
     return abs(got - secs) <= tol
